@@ -414,6 +414,28 @@ def execute(case):
         d = iso.first_difference(before_iso, after_iso)
         if d:
             fails.append((f"not-isomorphic/{d[0]}", d[1][:500]))
+        else:
+            # the deserialized model is the caller's own: after editing it in place (element types through the Value.dtype
+            # setter, denotations, dimensions of unfrozen shapes) the same proto must still deserialize to the same model
+            edited = 0
+            for g_ in [back.graph] + [f.graph for f in back.functions.values()] + [sg for f in [back.graph] + [f.graph for f in back.functions.values()] for sg in f.subgraphs()]:
+                for v_ in list(g_.inputs) + [o for n in g_ for o in n.outputs] + list(g_.initializers.values()):
+                    try:
+                        if isinstance(v_.type, ir.TensorType):
+                            v_.dtype = ir.DataType.FLOAT16 if v_.dtype != ir.DataType.FLOAT16 else ir.DataType.INT8
+                            v_.type.denotation = "edited"
+                            edited += 1
+                        if v_.shape is not None and not v_.shape.frozen and len(v_.shape):
+                            v_.shape[0] = 97
+                            v_.shape.set_denotation(0, "edited")
+                            edited += 1
+                    except Exception:
+                        pass
+            if edited:
+                again_iso = iso.model_iso(ir.from_proto(p1), describe_undefined=iso.pending_names(before_iso))
+                d = iso.first_difference(before_iso, again_iso)
+                if d:
+                    fails.append((f"second-deserialization-differs/{d[0]}", f"after the first deserialized model was edited in place, the same proto deserializes differently: {d[1]}"[:500]))
     except Exception as e:
         fails.append((f"from_proto-raised/{type(e).__name__}", f"from_proto(to_proto(model)) raised {type(e).__name__}: {e}"[:300]))
     n_nodes = sum(len(g) for g in u.graphs)
